@@ -69,6 +69,15 @@ class Ctx:
         with open(self.tables_path) as f:
             self.tables = json.load(f)
 
+    def write_params(self, module, defs):
+        """overwrite a parameter module (<MC>_P.tla) with definitions given as TLA+ source strings"""
+        lines = ["---- MODULE %s ----" % module, "\\* written by the check for this run (seed %d, tier %s)" % (self.seed, self.tier)]
+        for k, v in defs.items():
+            lines.append("%s == %s" % (k, v))
+        lines.append("====")
+        with open(os.path.join(self.spec, module + ".tla"), "w") as f:
+            f.write("\n".join(lines) + "\n")
+
     # -------------------------------------------------------------------- TLC
     def write_cfg(self, name, spec="Spec", constants=None, invariants=(), properties=(), extra=""):
         lines = ["SPECIFICATION %s" % spec] if spec else []
